@@ -276,7 +276,15 @@ func (r *ledgerRun) noteReceive(b *nom.AccountBlock) {
 		})
 	}
 	if len(rec.received) > 1 {
-		if r.preGate {
+		// below the enforcement height a send can be received by a third account AND by its addressee (known finding F8) —
+		// but never twice by the SAME account, at any height
+		sameTwice := false
+		for _, h := range rec.received[:len(rec.received)-1] {
+			if h.Address == b.Address {
+				sameTwice = true
+			}
+		}
+		if r.preGate && !sameTwice {
 			r.fail("C04 pre-enforcement-height: send %s (to %s) received %d times: by %s and %s", h8(rec.hash), addrName(rec.to), len(rec.received), addrName(rec.received[0].Address), addrName(b.Address))
 		} else {
 			r.fail("C04: send %s (to %s) received %d times: by %s and %s", h8(rec.hash), addrName(rec.to), len(rec.received), addrName(rec.received[0].Address), addrName(b.Address))
